@@ -12,34 +12,29 @@ Definition nf := inet_fns.
 Definition cfg_with_server : sysconfig :=
   match parse_resolv_line nf None sys_init (B "nameserver 1.2.3.4") with Ok c => c | _ => sys_init end.
 
-(* ---- C15_junk_independent: classes where the pinned code misbehaves ---- *)
+(* ---- inputs on which the code as pinned misbehaved; the model is of the fixed code
+   (fixes/C15-empty-lists-ignored, C15-option-values-validated, C15-bounded-atoi,
+   C15-no-empty-server-list) and these are now ordinary instances of the general theorems ---- *)
 
-(* "search ," is junk by the grammar (no name between the separators) but aborts the whole file
-   with ARES_ENOMEM: every directive before and after it is lost *)
-Lemma witness_search_empty :
+(* "search ," names nothing: was ARES_ENOMEM (whole file lost), now ignored *)
+Lemma fixed_search_empty :
   junk_class_resolv (B "search ,") = Some JSearchEmpty /\
-  parse_resolv_line nf None cfg_with_server (B "search ,") = Err ARES_ENOMEM /\
-  process_lines (parse_resolv_line nf None) sys_init [B "nameserver 1.2.3.4"; B "search ,"] = Err ARES_ENOMEM /\
-  process_lines (parse_resolv_line nf None) sys_init [B "nameserver 1.2.3.4"] = Ok cfg_with_server.
+  parse_resolv_line nf None cfg_with_server (B "search ,") = Ok cfg_with_server /\
+  process_lines (parse_resolv_line nf None) sys_init [B "nameserver 1.2.3.4"; B "search ,"] = Ok cfg_with_server.
 Proof. vm_compute. repeat split; reflexivity. Qed.
 
-(* the same through the environment: LOCALDOMAIN="" or RES_OPTIONS="" *)
-Lemma witness_env_empty :
+(* LOCALDOMAIN="" / RES_OPTIONS="": were ARES_ENOMEM, now the same as unset *)
+Lemma fixed_env_empty :
   junk_localdomain [] = true /\ junk_res_options [] = true /\
-  init_by_environment cfg_with_server (Some []) None = Err ARES_ENOMEM /\
-  init_by_environment cfg_with_server None (Some []) = Err ARES_ENOMEM /\
-  init_by_environment cfg_with_server None None = Ok cfg_with_server.
+  init_by_environment cfg_with_server (Some []) (Some []) = Ok cfg_with_server.
 Proof. vm_compute. repeat split; reflexivity. Qed.
 
-(* numeric option values are not validated: "ndots:abc" (junk) sets ndots to 0, "timeout:5x" to 5 s,
-   "ndots:-1" to 4294967295 *)
-Lemma witness_options_numeric :
+(* "ndots:abc" set ndots to 0, "timeout:5x" 5 s, "ndots:-1" 4294967295: now ignored; ndots:16 is capped *)
+Lemma fixed_options_numeric :
   junk_class_resolv (B "options ndots:abc") = Some JOptionsNumeric /\
-  option_map s_ndots (match parse_resolv_line nf None sys_init (B "options ndots:abc") with Ok c => Some c | _ => None end) = Some 0%Z /\
-  s_ndots sys_init = 1%Z /\
-  junk_class_resolv (B "options timeout:5x") = Some JOptionsNumeric /\
-  option_map s_timeout_ms (match parse_resolv_line nf None sys_init (B "options timeout:5x") with Ok c => Some c | _ => None end) = Some 5000%Z /\
-  option_map s_ndots (match parse_resolv_line nf None sys_init (B "options ndots:-1") with Ok c => Some c | _ => None end) = Some 4294967295%Z.
+  parse_resolv_line nf None sys_init (B "options ndots:abc timeout:5x ndots:-1 ndots attempts:") = Ok sys_init /\
+  option_map s_ndots (match parse_resolv_line nf None sys_init (B "options ndots:16") with Ok c => Some c | _ => None end) = Some 15%Z /\
+  option_map s_ndots (match parse_resolv_line nf None sys_init (B "options ndots:7") with Ok c => Some c | _ => None end) = Some 7%Z.
 Proof. vm_compute. repeat split; reflexivity. Qed.
 
 (* the pinned sortlist handler (sortlist_fixed = false) drops an earlier sortlist on a junk line;
@@ -53,44 +48,42 @@ Lemma witness_sortlist_pinned :
   parse_resolv_line_gen nf true None cfg_with_sortlist (B "sortlist junk") = Ok cfg_with_sortlist.
 Proof. vm_compute. repeat split; reflexivity. Qed.
 
-(* ---- C15_total: atoi() on digit strings of unbounded length ---- *)
-Lemma witness_atoi_overflow :
-  parse_sortlist nf (B "1.2.3.4/99999999999") = UB SignedOverflow /\
-  sconfig_append_fromstr nf None None (B "dns://1.2.3.4:53?tcpport=99999999999") true = UB SignedOverflow /\
-  sconfig_append_fromstr nf (Some vif) None (B "fe80::1%999999999999999") true = UB SignedOverflow.
+(* over-long digit strings no longer reach atoi() *)
+Lemma fixed_atoi_overflow :
+  parse_sortlist nf (B "1.2.3.4/99999999999") = Err ARES_EBADSTR /\
+  sconfig_append_fromstr nf None None (B "dns://1.2.3.4:53?tcpport=99999999999") true = Ok None /\
+  sconfig_append_fromstr nf (Some vif) None (B "fe80::1%999999999999999") true = Ok None.
 Proof. vm_compute. repeat split; reflexivity. Qed.
 
-(* ---- C15_ranges: ndots is documented as 0..15 ---- *)
-Lemma witness_ndots_range :
-  option_map s_ndots (match parse_resolv_line nf None sys_init (B "options ndots:16") with Ok c => Some c | _ => None end) = Some 16%Z /\
-  (16 > ndots_documented_max)%Z.
-Proof. vm_compute. repeat split; reflexivity. Qed.
-
-(* ---- reinit with a file whose only name server is unusable (link-local without a known
-   interface) empties the server list: the list object is created before the entry is dropped *)
+(* a reinit with a file whose only name server is unusable keeps the servers the channel has *)
 Definition env_of_resolv (txt : string) : sysenv :=
   mkEnv (mkFiles (Some (B txt)) None None None) None None (B "localhost") None.
 Definition chan_a : chan :=
   match init_options nf (env_of_resolv "nameserver 9.9.9.9") (mkOpts 0 0 0 0 0 0 0 0 [] [] None 0 [] 0 0 0 0 0 0) 0 with
   | Ok c => c | _ => mkChan 0 0 0 0 0 false 0 0 0 0 [] [] None 0 0 0 0 0 0 0 [] [] 0 [] None end.
-Lemma witness_reinit_no_servers :
+Lemma fixed_reinit_keeps_servers :
   List.length (c_servers chan_a) = 1%nat /\
-  option_map (fun c => List.length (c_servers c))
-    (match reinit nf (env_of_resolv "nameserver fe80::1%nope") chan_a with Ok c => Some c | _ => None end) = Some 0%nat /\
-  option_map (fun c => List.length (c_servers c))
-    (match reinit nf (env_of_resolv "# nothing") chan_a with Ok c => Some c | _ => None end) = Some 1%nat.
+  option_map c_servers (match reinit nf (env_of_resolv "nameserver fe80::1%nope") chan_a with Ok c => Some c | _ => None end)
+    = Some (c_servers chan_a).
 Proof. vm_compute. repeat split; reflexivity. Qed.
 
-(* ---- C16_csv_fixpoint / C16_dup: a server list the text form cannot express.  A link-local
-   server on the interface "br-lan" (not purely alphanumeric) given without port on a channel whose
-   default UDP port differs from the TCP port needs the dns:// form, whose host part rejects the
-   interface name: ares_get_servers_csv returns NULL and ares_dup fails *)
+(* ---- C16_csv_fixpoint / C16_dup: a server list the text form still cannot express.  With
+   fixes/C16-uri-scope-charset.patch interface names made of URI-unreserved characters (br-lan,
+   eth0.100) are accepted; a name with ':' (alias interface "eth0:1"), '{', '}' or a backslash is
+   not a valid URI authority, so a link-local server on it with differing ports still cannot be
+   rendered: ares_get_servers_csv returns NULL and ares_dup fails *)
+Definition srv_alias : server :=
+  mkServer (A6 [254; 128; 0; 0; 0; 0; 0; 0; 0; 0; 0; 0; 0; 0; 0; 2]%N) 5353 53 (B "eth0:1") 3.
+Lemma witness_csv_unrenderable : get_servers_csv nf [srv_alias] = Err ARES_EBADNAME.
+Proof. vm_compute. reflexivity. Qed.
+
 Definition srv_brlan : server :=
   mkServer (A6 [254; 128; 0; 0; 0; 0; 0; 0; 0; 0; 0; 0; 0; 0; 0; 2]%N) 5353 53 (B "br-lan") 3.
-Lemma witness_csv_unrenderable :
+Lemma fixed_brlan_roundtrip :
   set_servers_csv nf (Some vif) 0 5353 0 [] (B "fe80::2%br-lan") = Ok [srv_brlan] /\
-  get_servers_csv nf [srv_brlan] = Err ARES_EBADNAME.
-Proof. vm_compute. split; reflexivity. Qed.
+  get_servers_csv nf [srv_brlan] = Ok (B "dns://[fe80::2%br-lan]:5353?tcpport=53") /\
+  set_servers_csv nf (Some vif) 0 0 0 [] (B "dns://[fe80::2%br-lan]:5353?tcpport=53") = Ok [srv_brlan].
+Proof. vm_compute. repeat split; reflexivity. Qed.
 
 (* the dns:// form itself round-trips when the interface name is alphanumeric *)
 Definition srv_eth0 : server :=
